@@ -379,6 +379,20 @@ def dec2ddm(dec):""", note='sign flag dropped in dec2dms: wrong for -1 < x < 0')
     dict(id='nt-skip', props=['C17'], file='geodepy/ntv2reader.py', old="            skip_bytes += 176   # subgrid header length", new="            skip_bytes += 192   # subgrid header length", note='sub-grid header length off by 16'),
     dict(id='nt-finest', props=['C17'], file='geodepy/ntv2reader.py', old="                if grid_object.subgrids[sg].lat_inc < inc:", new="                if grid_object.subgrids[sg].lat_inc > inc:", note='coarsest instead of finest sub-grid'),
     dict(id='nt-units', props=['C17'], file='geodepy/transform.py', old="        tf_lat = lat - shifts[0] / 3600", new="        tf_lat = lat - shifts[0] / 3660", note='unit of the latitude shift in the reverse direction'),
+    dict(id='nt-ring-linear', props=['C17'], file='geodepy/ntv2reader.py',
+         old="""                return tuple(3 * n1 - 3 * n2 + n3 for n1, n2, n3
+                             in zip(node(r + d, c), node(r + 2 * d, c), node(r + 3 * d, c)))""",
+         new="""                return tuple(2 * n1 - n2 + 0 * n3 for n1, n2, n3
+                             in zip(node(r + d, c), node(r + 2 * d, c), node(r + 3 * d, c)))""",
+         note='rows beyond the sub-grid extrapolated linearly: bi-quadratic fields not reproduced in the outermost ring (north/south)'),
+    dict(id='nt-ring-clamp', props=['C17'], file='geodepy/ntv2reader.py',
+         old="""                return tuple(3 * n1 - 3 * n2 + n3 for n1, n2, n3
+                             in zip(node(r, c + d), node(r, c + 2 * d), node(r, c + 3 * d)))""",
+         new="""                return node(r, c + d)""",
+         note='columns beyond the sub-grid replaced by the edge column: linear fields not reproduced in the outermost ring (east/west)'),
+    dict(id='nt-ring-beyond', props=['C17'], file='geodepy/ntv2reader.py',
+         old="            if not 0 <= r < num_rows:", new="            if not -1 <= r < num_rows:",
+         note='baseline defect restored for the southern edge: the row below the sub-grid is read from the file (header bytes / other sub-grid)'),
     # ---- C18 ------------------------------------------------------------------------------------------------------------
     dict(id='snx-count', props=['C18'], file='geodepy/gnss.py', old="        num_params = int(old_num_params) - num_stn_params * num_stns_to_remove", new="        num_params = int(old_num_params) - num_stn_params * (num_stns_to_remove - 1) - 3",
          note='header count wrong when velocities are present'),
